@@ -336,37 +336,6 @@ Proof.
   eapply EV_ext; [exact Hev| |reflexivity]. cbn [with_objs w_objs]. apply ext_by_put. reflexivity.
 Qed.
 
-Lemma run_refresh_ev : forall w, EV false w (fst (run_refresh w)).
-Proof.
-  intros. unfold run_refresh. open_manual op Hop Hev.
-  destruct (negb _); [exact Hev|].
-  destruct (last_error _) as [pn|]; [|exact Hev].
-  destruct (w_unmerged _); [exact Hev|].
-  unfold put. cbv beta iota zeta.
-  match goal with
-  | |- EV false _ (fst (match ?T with pair _ _ => _ end)) =>
-      assert (H1 : EV false w (fst T));
-      [ apply transact_ev; [|ksolve]; cbn [op_world];
-        eapply EV_ext; [exact Hev| |reflexivity]; cbn [with_objs w_objs]; apply ext_by_put; reflexivity
-      | destruct T as [w2 x] ]
-  end.
-  cbn [fst] in H1.
-  destruct x; try exact H1.
-  destruct (open_stack PAllow w2) as [op2|] eqn:Hop2; [|exact H1].
-  apply transact_ev.
-  - eapply EV_trans; [exact H1|]. eapply open_stack_ev; [exact Hop2|discriminate].
-  - intros objs t E.
-    destruct (t_patch t pn) as [pc|]; [|exact I].
-    destruct (t_patch t _) as [tc|]; [|exact I].
-    cbv zeta. unfold put.
-    destruct (tree_eqb _ _); cbv beta iota; cbn [fst snd].
-    + destruct (delete_patches _ t) as [t2 inc] eqn:DP. apply objs_delete_patches in DP.
-      cbn [texts]. now rewrite DP.
-    + destruct (delete_patches _ _) as [t2 inc] eqn:DP. apply objs_delete_patches in DP.
-      apply update_patch_keeps. rewrite DP, objs_set_objs.
-      eapply ext_by_trans; [exact E|]. apply ext_by_put. reflexivity.
-Qed.
-
 Lemma run_undo_like_ev : forall w steps hard msg, EV false w (fst (run_undo_like w steps hard msg)).
 Proof.
   intros. unfold run_undo_like. open_manual op0 Hop Hev0.
@@ -457,6 +426,71 @@ Proof.
   destruct (pop_patches _ t) as [t1 extra] eqn:PP. apply objs_pop_patches in PP.
   destruct extra; [|exact I].
   apply texts_tbind; [|apply push_patches_keeps]. apply update_patch_keeps. now rewrite PP.
+Qed.
+
+Lemma refresh_commit_objs : forall objs t pc tr t2 newc,
+  plain_extends objs (t_objs t) -> refresh_commit t pc tr = (t2, newc) -> plain_extends objs (t_objs t2).
+Proof.
+  intros objs t pc tr t2 newc E H. unfold refresh_commit in H. destruct (tree_eqb _ _).
+  - inversion H; subst. exact E.
+  - unfold put in H. inversion H; subst. rewrite objs_set_objs.
+    eapply ext_by_trans; [exact E|]. apply ext_by_put. reflexivity.
+Qed.
+
+Lemma refresh_absorb_keeps : forall pn tmpname, keeps (refresh_absorb pn tmpname).
+Proof.
+  intros pn tmpname objs t E. unfold refresh_absorb. destruct (mem pn (t_applied t)).
+  - cbv zeta. apply texts_tbind.
+    + destruct (Nat.ltb _ _); [|exact E].
+      destruct (pop_patches _ t) as [t1 extra] eqn:PP. apply objs_pop_patches in PP.
+      destruct extra; [|exact I]. apply push_patches_keeps. now rewrite PP.
+    + intros objs' t1 E1.
+      destruct (t_patch t1 pn) as [pc|]; [|exact I].
+      destruct (t_patch t1 tmpname) as [tc|]; [|exact I].
+      destruct (last_error _) as [top|]; [|exact I]. destruct (negb _); [exact I|].
+      destruct (refresh_commit t1 pc _) as [t2 newc] eqn:RC.
+      apply (refresh_commit_objs objs' _ _ _ _ _ E1) in RC.
+      destruct (delete_patches _ t2) as [t3 inc] eqn:DP. apply objs_delete_patches in DP.
+      apply texts_tbind; [|apply push_patches_keeps].
+      destruct newc; [apply update_patch_keeps|cbn [texts]]; now rewrite DP.
+  - destruct (pop_patches _ t) as [t1 extra] eqn:PP. apply objs_pop_patches in PP.
+    destruct extra; [|exact I].
+    destruct (t_patch t1 pn) as [pc|]; [|exact I].
+    destruct (t_patch t1 tmpname) as [tc|]; [|exact I].
+    assert (E1 : plain_extends objs (t_objs t1)) by now rewrite PP.
+    destruct (first_parent _ _) as [tpar|]; [|exact E1].
+    destruct (apply3way _ _ _ _) as [tree'|]; [|exact E1].
+    destruct (refresh_commit t1 pc tree') as [t2 newc] eqn:RC.
+    apply (refresh_commit_objs objs _ _ _ _ _ E1) in RC.
+    apply texts_tbind.
+    + destruct newc; [now apply update_patch_keeps|exact RC].
+    + intros objs' t3 E3. destruct (delete_patches _ t3) as [t4 inc] eqn:DP.
+      apply objs_delete_patches in DP. cbn [fst texts]. now rewrite DP.
+Qed.
+
+Lemma run_refresh_ev : forall w p, EV false w (fst (run_refresh w p)).
+Proof.
+  intros. unfold run_refresh.
+  destruct (match p with Some o => _ | None => _ end) as [loc_l|]; [|apply EV_refl].
+  open_manual op Hop Hev.
+  destruct (negb _); [exact Hev|].
+  unfold rres_bind.
+  match goal with |- EV false _ (fst (match ?r with ROk _ => _ | RErr _ => _ | RPanic => _ end)) =>
+    destruct r as [pn| |]; [|exact Hev|exact Hev] end.
+  destruct (w_unmerged _); [exact Hev|].
+  unfold put. cbv beta iota zeta.
+  match goal with
+  | |- EV false _ (fst (match ?T with pair _ _ => _ end)) =>
+      assert (H1 : EV false w (fst T));
+      [ apply transact_ev; [|ksolve]; cbn [op_world];
+        eapply EV_ext; [exact Hev| |reflexivity]; cbn [with_objs w_objs]; apply ext_by_put; reflexivity
+      | destruct T as [w2 x] ]
+  end.
+  cbn [fst] in H1.
+  destruct x; try exact H1.
+  destruct (open_stack PAllow w2) as [op2|] eqn:Hop2; [|exact H1].
+  apply transact_ev; [|apply refresh_absorb_keeps].
+  eapply EV_trans; [exact H1|]. eapply open_stack_ev; [exact Hop2|discriminate].
 Qed.
 
 Lemma run_edit_ev : forall w l m msg, EV false w (fst (run_edit w l m msg)).
